@@ -5,6 +5,6 @@ cd "$(dirname "$0")/.."
 mkdir -p /tmp/seed-reeval
 ls seeded | grep -E '^C[0-9]+-[A-Z]$' | awk '{print NR%4, $0}' | while read slot id; do echo "$slot $id"; done > /tmp/seed-reeval/plan.txt
 for slot in 0 1 2 3; do
-  ( grep "^$slot " /tmp/seed-reeval/plan.txt | while read s id; do if [ -n "${TARGET_ONLY:-}" ]; then C="${id%%-*}"; else C="${CHECKS:-}"; fi; [ -s /tmp/seed-reeval/$id.log ] && [ -z "${FORCE:-}" ] && continue; SLOT=re$slot tools/try_mutant.sh seeded/$id/patch.diff $C > /tmp/seed-reeval/$id.log 2>&1; done ) &
+  ( grep "^$slot " /tmp/seed-reeval/plan.txt | while read s id; do if [ -n "${TARGET_ONLY:-}" ]; then C="${id%%-*}"; elif [ -n "${ROUND1_TARGET_ONLY:-}" ] && [[ "$id" == *-[AB] ]]; then C="${id%%-*}"; else C="${CHECKS:-}"; fi; [ -s /tmp/seed-reeval/$id.log ] && [ -z "${FORCE:-}" ] && continue; SLOT=re$slot tools/try_mutant.sh seeded/$id/patch.diff $C > /tmp/seed-reeval/$id.log 2>&1; done ) &
 done
 wait
